@@ -53,6 +53,9 @@ structure FnDecl where
   isTemplate : Bool
   hasBody : Bool
   threads : Option (Nat × Nat × Nat)
+  /-- the function carries a `numthreads` attribute one of whose arguments the constant evaluator can not turn into a
+      value of the u32 range (not a constant expression, negative, a float, 2^32 or more); `threads` is `none` then -/
+  badThreads : Bool := false
   deriving DecidableEq, Repr
 
 structure PipeDef where
@@ -70,6 +73,9 @@ inductive ErrKind where
   | requiresGraphics | requiresString | requiresInteger | argumentUnknown
   /-- `error: string may not be used` from the expression checker (no location) -/
   | stringNotUsable
+  /-- `error: state requires an integer argument` without a location: `add_stage` could not evaluate the `numthreads`
+      attribute of the entry function (`SourceLocation::UNKNOWN`) -/
+  | threadsNotInteger
   /-- outside the model: an identifier evaluated as an integer expression -/
   | unsupported
   deriving DecidableEq, Repr
@@ -118,11 +124,13 @@ structure IrPipe where
 def sameFn (f g : FnDecl) : Bool := f.name == g.name && f.shape == g.shape
 
 /-- `void f();` followed by `void f() {..}` is one registry entry that gains its body (and attributes) later;
-    a different signature is a new entry -/
+    a different signature is a new entry.  The attributes `add_stage` reads are those of the *implementation*
+    (`get_function_implementation(id).attributes`): a `numthreads` written on a prototype only is not seen, and a
+    prototype repeated after the definition changes nothing. -/
 def registerFn (reg : List FnDecl) (f : FnDecl) : List FnDecl :=
   if reg.any (sameFn f) then
     reg.map fun g =>
-      if sameFn f g && f.hasBody then { g with hasBody := true, threads := f.threads } else g
+      if sameFn f g && f.hasBody then { g with hasBody := true, threads := f.threads, badThreads := f.badThreads } else g
   else reg ++ [f]
 
 def stepReg (reg : List FnDecl) : Item → List FnDecl
@@ -264,7 +272,10 @@ def addStage (reg : List FnDecl) (stage : Stage) (v : Val) (path : Nat) : Except
   match v with
   | .single (.ident name) =>
     match lookupEntry reg name with
-    | some (i, f) => .ok { stage := stage, entry := i, entryName := f.name, tgs := f.threads }
+    | some (i, f) =>
+      -- the attribute loop over the implementation's attributes: every `numthreads` argument must evaluate to a u32
+      if f.badThreads then .error ⟨.threadsNotInteger, 0⟩
+      else .ok { stage := stage, entry := i, entryName := f.name, tgs := f.threads }
     | none => .error ⟨.entryUnknown, path⟩
   | _ => .error ⟨.entryUnknown, path⟩
 
